@@ -11,6 +11,7 @@ import (
 	"reflect"
 	"runtime"
 	"sort"
+	"strings"
 	"sync"
 	"sync/atomic"
 
@@ -366,6 +367,41 @@ func Run(c *ev.Ctx) {
 				s3.data = append(append([]byte{}, sums.data...), lines[li]...)
 				add(fmt.Sprintf("sums-duplicate-line:%d", li), append(append([]member{}, rest...), s3), false)
 			}
+			// one member's checksum line replaced by a second copy of another member's line (the list keeps its length but
+			// no longer covers that member), with the uncovered member intact and with its content altered
+			for li := range lines {
+				for lj := range lines {
+					if li == lj || len(lines[li]) == 0 || len(lines[lj]) == 0 {
+						continue
+					}
+					var d []byte
+					for lk := range lines {
+						if lk == li {
+							d = append(d, lines[lj]...)
+						} else {
+							d = append(d, lines[lk]...)
+						}
+					}
+					s5 := sums
+					s5.data = d
+					add(fmt.Sprintf("sums-line-%d-replaced-by-copy-of-%d", li, lj), append(append([]member{}, rest...), s5), true)
+					uncovered := string(bytes.TrimSpace(lines[li]))
+					if k := strings.LastIndexByte(uncovered, ' '); k >= 0 {
+						uncovered = uncovered[k+1:]
+					}
+					var alt []member
+					for _, m := range rest {
+						if m.hdr.Name == uncovered && len(m.data) > 0 {
+							m2 := m
+							m2.data = append([]byte{}, m.data...)
+							m2.data[len(m2.data)/2] ^= 0x01
+							m = m2
+						}
+						alt = append(alt, m)
+					}
+					add(fmt.Sprintf("sums-line-%d-replaced-by-copy-of-%d+uncovered-member-altered", li, lj), append(alt, s5), true)
+				}
+			}
 			s4 := sums
 			s4.data = append(append([]byte{}, sums.data...), []byte("0000000000000000000000000000000000000000000000000000000000000000  other.bin\n")...)
 			add("sums-extra-line", append(append([]member{}, rest...), s4), true)
@@ -424,15 +460,15 @@ func Run(c *ev.Ctx) {
 				must bool
 			}
 			for name, tl := range map[string]tail{
-				"trailing-garbage":                     {cat(g, []byte("garbage after the stream")), false},
-				"trailing-byte":                        {cat(g, []byte{0}), false},
-				"concatenated-junk-member":             {cat(g, gz([]byte("second member"))), false},
-				"concatenated-archive":                 {cat(g, g), true},
-				"concatenated-other-archive":           {cat(g, gz(other.raw)), true},
-				"concatenated-unexpected-member":       {cat(g, gz(extraMember)), true},
-				"inside-stream-other-archive":          {gz(cat(a.raw, other.raw)), true},
-				"inside-stream-unexpected-member":      {gz(cat(a.raw, extraMember)), true},
-				"inside-stream-junk-after-terminator":  {gz(cat(a.raw, []byte("junk after the tar terminator"))), false},
+				"trailing-garbage":                    {cat(g, []byte("garbage after the stream")), false},
+				"trailing-byte":                       {cat(g, []byte{0}), false},
+				"concatenated-junk-member":            {cat(g, gz([]byte("second member"))), false},
+				"concatenated-archive":                {cat(g, g), true},
+				"concatenated-other-archive":          {cat(g, gz(other.raw)), true},
+				"concatenated-unexpected-member":      {cat(g, gz(extraMember)), true},
+				"inside-stream-other-archive":         {gz(cat(a.raw, other.raw)), true},
+				"inside-stream-unexpected-member":     {gz(cat(a.raw, extraMember)), true},
+				"inside-stream-junk-after-terminator": {gz(cat(a.raw, []byte("junk after the tar terminator"))), false},
 			} {
 				st, m, err := readFull(tl.b)
 				var mm raft.SnapshotMeta
